@@ -3,7 +3,6 @@
 package sniproxy
 
 import (
-	"bytes"
 	"fmt"
 )
 
@@ -27,7 +26,7 @@ func VerifServerFrames(frames [][]byte) (res []VerifServerFramesResult, panicked
 	s := newEndpointServer(nil, nil, &Options{})
 	var held []*endpointExchange
 	for _, f := range frames {
-		x, err := s.startCall(bytes.NewReader(f))
+		x, err := s.startCall(verifReader(f))
 		if err != nil {
 			held = append(held, nil)
 			continue
